@@ -104,6 +104,9 @@ func loadEngine(repo string, patterns []string) (*Engine, error) {
 			if strings.HasPrefix(fs.Name, "(") && strings.Contains(k, ").") && !strings.HasPrefix(fs.Name, "(*") {
 				continue // interface method contract
 			}
+			if fs.Flags["functype"] {
+				continue
+			}
 			return nil, fmt.Errorf("%s:%d: contract for unknown function %s", fs.File, fs.Line, k)
 		}
 	}
@@ -205,10 +208,10 @@ type UnitResult struct {
 	Body    []string
 }
 
-func (e *Engine) verifyUnit(fn *ssa.Function, classes map[string]bool) *UnitResult {
+func (e *Engine) verifyUnit(fn *ssa.Function, classes map[string]bool) (res *UnitResult) {
 	spec := e.specFor(fn)
 	u := &Unit{eng: e, root: fn, spec: spec, loopWrites: map[string]map[string]bool{}, classes: classes}
-	res := &UnitResult{Func: e.funcKey(fn)}
+	res = &UnitResult{Func: e.funcKey(fn)}
 	defer func() {
 		if r := recover(); r != nil {
 			res.Failed = fmt.Sprintf("engine panic: %v", r)
@@ -255,6 +258,8 @@ func (e *Engine) verifyUnit(fn *ssa.Function, classes map[string]bool) *UnitResu
 		u.mapWFDone = map[string]bool{}
 		u.reachCache = map[string]bool{}
 		u.sumDone = map[string]bool{}
+		u.freshRefs = map[string]int{}
+		u.allocSeq, u.freshFloor = 0, 0
 		u.oblCount = map[string]int{}
 		u.sinks = nil
 		u.inlineStack = nil
@@ -381,6 +386,11 @@ func (u *Unit) runRoot() {
 		u.bindResultNames(renv, u.spec, fn, r.vals)
 		ctx := &specCtx{fr: fr, cur: r.st, old: u.entry, env: renv}
 		for _, cl := range u.spec.Ensures {
+			if strings.HasPrefix(cl.Label, "trusted-") {
+				// assumed at call sites, not proved here: reported as an assumption of every property it serves
+				u.note("trusted postcondition of " + u.spec.Name + " (not checked): " + cl.Text)
+				continue
+			}
 			t, err := u.specBool(cl.Expr, ctx)
 			if err != nil {
 				u.failed = fmt.Sprintf("%s:%d: %v", cl.File, cl.Line, err)
@@ -505,7 +515,7 @@ func (u *Unit) modAllowed(fr *Frame) (map[string][]string, bool) {
 // frameFormula: heap variable k in state st differs from the entry state only at locations the modifies clause names
 // (objects allocated by this activation aside). Returns "" when nothing needs to be shown.
 func (u *Unit) frameFormula(st *State, k string, allowed map[string][]string) string {
-	if isLocalName(k) || k == "$alloc" || k == "$lock" || k == "$now" {
+	if isLocalName(k) || k == "$alloc" || k == "$lock" || k == "$now" || k == "$hashin" {
 		return ""
 	}
 	srt := u.heapSort[k]
